@@ -64,7 +64,7 @@ Proof. exact c1_point_pos_rep_linear. Qed.
 Theorem C17_mixtures_with_point_mass_repaired_linear : forall o s1 s2 rep (theta : R) params,
   mixture_sym_point_pos o s1 s2 true rep theta params = oscale theta (mixture_sym_point_pos o s1 s2 true rep 1 params) /\
   mixture_point_pos o s1 s2 true rep theta params = oscale theta (mixture_point_pos o s1 s2 true rep 1 params).
-Proof. intros; split; [exact (mixture_sym_point_pos_linear _ _ _ _ _ _) | exact (mixture_point_pos_linear _ _ _ _ _ _)]. Qed.
+Proof. exact mixtures_point_mass_repaired_linear. Qed.
 
 (** * selection has no effect: theta * S * total quadrature weight *)
 Theorem C17_selection_free_gives_total_weight_1d : forall (theta S : R) xs ws wneu wdel n, length ws = n -> (0 < n)%nat ->
